@@ -376,3 +376,9 @@ package identity
 //@   ensures [a-successful-pull-has-merged] result == nil ==> mergeRuns == old(mergeRuns) + 1
 //@   loop 1
 //@     invariant mergeRuns == old(mergeRuns) + 1
+
+// Decoding a stored version (C07): only the format this build writes is accepted.
+//@ func (*version).UnmarshalJSON
+//@   props C07
+//@   requires v != nil
+//@   check [only-the-expected-format-is-read] result == nil ==> aux.FormatVersion == formatVersion
